@@ -24,6 +24,7 @@ CHECKS = {
     'C09': ('Coroutines.tla', 'start / kill / restart / state / promise as actions, also issued from inside coroutine bodies; TLC invariants StateCoherent, NoDuplicates, StructuresAgree, ErrorsChangeNothing, ReleasedInTime; replay compares state (processor and promise), promise value, exceptions, execution log and whether the processor still references each generator', '6 C09'),
     'C13': ('Loop.tla', 'TLA+ spec of SimpleLoop / switch() / SwitchWorld over handles with cached world instances and per-instance gates and queues; every combination of target, clear flags and request site as Frame actions; TLC action properties OutOnceInLeft, InOnceInEntered, FrameAbandoned, LeftWorldMuted, ClearYieldsFresh; replay on the real loop with harness-owned processors, on_update listener and coroutine', '6 C13'),
     'C14': ('Loop.tla', 'clock readings as model inputs; TLC action properties FirstDtZero, DtIsDifference, LastIsReading, QuitReturnsNormally, OnQuitDeliveredInCurrent across switches, quits, errors and restarts; replay feeds the same integer readings through time_function and compares the dt seen by every site', '6 C14'),
+    'C16': ('Populator.tla', 'the directory tree, rule list and options are inputs chosen by Init from enumerated families; one Call action per population computes the map the way the code does; TLC invariants compare it with the expectation computed from the statement; every scenario is materialised on disk and run through the real populator (listing order steered)', '6 C16'),
     'C10': ('Dispatcher.tla', 'TLA+ spec with weakly held handlers, DropRef between calls and between two callbacks of one dispatch under every iteration order; replay with real weak references and gc', '6 C10'),
 }
 
